@@ -1,5 +1,6 @@
 import ThriftVerif.Props.C13
 #print axioms Props.C13.key_dispatch_table_sound
+#print axioms Props.C13.zero_writer_table_sound
 #print axioms Props.C13.precount_map
 #print axioms Props.C13.precount_list_repaired
 #print axioms Props.C13.precount_list_partial
